@@ -10,35 +10,38 @@
 
 #include "squid.h"
 #include "AccessLogEntry.h"
+#include "format/Format.h"
 #include "format/Quoting.h"
 #include "format/Token.h"
 #include "globals.h"
 #include "HttpRequest.h"
 #include "log/File.h"
 #include "log/Formats.h"
+#include "MemBuf.h"
 #include "SquidConfig.h"
 
 void
 Log::Format::HttpdCombined(const AccessLogEntry::Pointer &al, Logfile * logfile)
 {
     const char *user_auth = nullptr;
-    const char *referer = nullptr;
-    const char *agent = nullptr;
 
     if (al->request) {
 #if USE_AUTH
         if (al->request->auth_user_request != nullptr)
             user_auth = ::Format::QuoteUrlEncodeUsername(al->request->auth_user_request->username());
 #endif
-        referer = al->request->header.getStr(Http::HdrType::REFERER);
-        agent = al->request->header.getStr(Http::HdrType::USER_AGENT);
     }
 
-    if (!referer || *referer == '\0')
-        referer = "-";
-
-    if (!agent || *agent == '\0')
-        agent = "-";
+    // Referer and User-Agent are written inside double quotes. Encode them the
+    // way the logformat engine encodes the "%{Referer}>h" "%{User-Agent}>h"
+    // tokens of this format's documented definition (\" \\ \r \n \t), so that a
+    // quote character in the value cannot end the field.
+    MemBuf referer;
+    referer.init();
+    ::Format::AssembleOne("%\"{Referer}>h", referer, al);
+    MemBuf agent;
+    agent.init();
+    ::Format::AssembleOne("%\"{User-Agent}>h", agent, al);
 
     char clientip[MAX_IPSTRLEN];
     al->getLogClientIp(clientip, MAX_IPSTRLEN);
@@ -56,8 +59,8 @@ Log::Format::HttpdCombined(const AccessLogEntry::Pointer &al, Logfile * logfile)
                   al->http.version.major, al->http.version.minor,
                   al->http.code,
                   al->http.clientReplySz.messageTotal(),
-                  referer,
-                  agent,
+                  referer.content(),
+                  agent.content(),
                   al->cache.code.c_str(),
                   hier_code_str[al->hier.code],
                   (Config.onoff.log_mime_hdrs?"":"\n"));
